@@ -731,6 +731,22 @@ Fixpoint enc_cursors (fs : list frame) : list (list N) :=
   | _ :: r => enc_cursors r
   end.
 
+(* the order of the milestone frames of the session stream (SSE payload frames are not milestones) *)
+Fixpoint enc_milestones (fs : list frame) : list N :=
+  match fs with
+  | [] => []
+  | FDump _ _ _ _ _ :: r => 0 :: enc_milestones r
+  | FStarted _ _ _ _ :: r => 1 :: enc_milestones r
+  | FHeaders _ _ :: r => 2 :: enc_milestones r
+  | FFirstByte _ :: r => 3 :: enc_milestones r
+  | FProviderError _ :: r => 4 :: enc_milestones r
+  | FTool _ _ :: r => 5 :: enc_milestones r
+  | FEnded _ :: r => 6 :: enc_milestones r
+  | FInvalidRequest _ _ :: r => 7 :: enc_milestones r
+  | FStub _ :: r => 6 :: enc_milestones r
+  | _ :: r => enc_milestones r
+  end.
+
 Definition model_obs (c : case) : list N :=
   let w := cs_world c in
   let o := run 40 (outcome_script (cs_outcome c)) (cs_thread c) w (lit "prompt") [IUser (lit "prompt")] in
@@ -740,6 +756,7 @@ Definition model_obs (c : case) : list N :=
   ++ enc_first_sent (out_sent o) (negb (cs_outcome c =? 2))
   ++ nlen reqs :: List.concat reqs
   ++ enc_ostr (ended_reason (out_session o))
-  ++ nlen curs :: List.concat curs.
+  ++ nlen curs :: List.concat curs
+  ++ nlen (enc_milestones (out_session o)) :: enc_milestones (out_session o).
 
 Definition check_case (c : case) : bool := lN_eqb (model_obs c) (cs_obs c).
